@@ -392,7 +392,8 @@ func (g *c09Gen) ambiguous(n *c09Node, depth int) bool {
 func HarnessC09() {
 	g := &c09Gen{ctx: Context{}, bools: map[string]bool{}, strs: map[string]string{}, lists: map[string][]string{}, maxLen: verifParam("len", 2)}
 	t := g.gen(verifParam("depth", 2), "", false)
-	verifAssume(!g.ambiguous(t, 0))
+	// cycle / ifchanged inside a loop nested in another loop: "within one fresh render" their state lives
+	// as long as the render (the inner loop continues the round-robin when it is entered again)
 	src := g.print(t)
 	verifObserve("src", src)
 	want := g.interp(t, &c09Env{vars: map[string]string{}, cyc: map[int]int{}, last: map[int]string{}, seen: map[int]bool{}})
